@@ -34,7 +34,10 @@ for _sid in "C01-i C02-j C05-i C07-i C07-j C08-i C09-i C09-j C10-i C10-j C11-j C
 NOTES.setdefault("C06-i", "fifth round; MISSED by C06 (the change is visible only through the client API); caught by C13 (process-and-acknowledge consumer)")
 NOTES.setdefault("C13-i", "fifth round; MISSED by C13; caught by C14 (receiver left behind by Close/Reset, stale state after Reset)")
 NOTES.setdefault("C16-i", "fifth round; NOT CAUGHT: needs a Modify racing with a Flush, outside C16's quantifier (histories, configurations); the unchanged tree has the mirror-image race (DESIGN.md 9.4, 9.5)")
-EXTRA_CHECKS = {"C06-i": "C13", "C13-i": "C14"}
+for _sid in "C01-k C02-k C02-l C03-l C04-l C06-k C07-k C07-l C08-l C09-k C09-l C10-k C10-l C12-l C13-k C14-k C14-l C16-k C17-l C19-k".split():
+    NOTES.setdefault(_sid, "sixth round; initially MISSED; caught after the check was strengthened (DESIGN.md 9.5, sixth round)")
+NOTES.setdefault("C13-l", "sixth round; MISSED by C13; caught by C14 (Reset after a failure: the second session)")
+EXTRA_CHECKS = {"C06-i": "C13", "C13-i": "C14", "C13-l": "C14"}
 REBASED = {"C04-b", "C04-d", "C05-c", "C09-d", "C10-d", "C11-d"}
 ids = sys.argv[1:] or sorted(d for d in os.listdir(SEEDED) if os.path.isdir(os.path.join(SEEDED, d)))
 rows = []
